@@ -1,5 +1,5 @@
 (* C03 — property theorems.  Only statements, `exact lemma`, Print Assumptions. *)
-From Sdns Require Import Common.Base Common.GoList Gen.C03 C03.Model C03.Proofs_Key C03.Proofs_Inj C03.Proofs_Store C03.Proofs_Failure C03.Proofs_Gen C03.Proofs_Zones.
+From Sdns Require Import Common.Base Common.GoList Gen.C03 C03.Model C03.Proofs_Key C03.Proofs_Inj C03.Proofs_Store C03.Proofs_Failure C03.Proofs_Gen C03.Proofs_Zones C03.Proofs_Unpack C03.Proofs_Chase.
 Open Scope N_scope.
 
 (* Names are keyed identically whether they arrive as wire labels or as
@@ -368,3 +368,90 @@ Theorem gen_walkFailureZones_is_name_suffixes :
     (GoRet tt, (visit, match first_false visit (name_suffixes zone) with Some z => z | None => [46] end)).
 Proof. exact gen_walkFailureZones. Qed.
 Print Assumptions gen_walkFailureZones_is_name_suffixes.
+
+(* ---- the decoder: miekg/dns UnpackDomainName, whose output is the presentation text of every decoded request *)
+
+(* translator tie: the label-printing loop of UnpackDomainName (translated from the module cache at the version
+   go.mod requires, with isDomainNameLabelSpecial and escapeByte's tables) run on msg[off:off+c] ends normally
+   having appended, octet by octet over all 256 values, the model's present_byte — backslash + special, the
+   decimal escape outside 0x20-0x7E, the octet itself — and left msg, off and c alone *)
+Theorem gen_UnpackDomainName_label :
+  forall msg off s c, Forall (fun b => b < 256) msg ->
+    go_UnpackDomainName_loop2_run msg off s c =
+    (GoNext, (msg, off, s ++ flat_map present_byte (go_slice msg off (off + c)), c)).
+Proof. exact gen_UnpackDomainName_label_lemma. Qed.
+Print Assumptions gen_UnpackDomainName_label.
+
+(* the escape set of the wire hasher / verifier (key_wire.go isPresentationSpecial) IS the decoder's escape set *)
+Theorem gen_special_sets_agree :
+  forall b, go_isPresentationSpecial b = go_isDomainNameLabelSpecial b.
+Proof. exact gen_special_sets_agree_lemma. Qed.
+Print Assumptions gen_special_sets_agree.
+
+(* the decoder's walk (unpack_name: the outer loop by hand around the translated label loop) on the wire form of
+   every well-formed label list — anywhere in a message — prints the model's `present` and stops just past the
+   name: the theorems stated over `present` are statements about the text the decoder produces *)
+Theorem decoder_prints_present :
+  forall pre ls post,
+    name_wf ls = true -> Forall (fun b => b < 256) pre -> Forall (fun b => b < 256) post ->
+    unpack_name (pre ++ encode ls ++ post) (len pre) = Some (present ls, len pre + len (encode ls)).
+Proof. exact unpack_name_encode_lemma. Qed.
+Print Assumptions decoder_prints_present.
+
+(* the iteration budget of the decoder model is never the reason for a refusal: for EVERY message and offset more
+   iterations than unpack_fuel give the same result (each turn spends two units of the 255-octet budget or one of
+   the 126 pointers), so unpack_name = None is always one of UnpackDomainName's error returns *)
+Theorem unpack_fuel_never_exhausted :
+  forall extra msg off,
+    unpack_loop (unpack_fuel + extra) msg off [] dns_max_name_wire_octets 0%Z 0%Z =
+    unpack_loop unpack_fuel msg off [] dns_max_name_wire_octets 0%Z 0%Z.
+Proof. exact unpack_fuel_never_exhausted_lemma. Qed.
+Print Assumptions unpack_fuel_never_exhausted.
+
+(* "Names are keyed identically whether they arrive as wire labels or presentation text, including escaped and
+   non-printable octets": for every well-formed name over all 256 octet values, every type, class, CD, scope and
+   EVERY hash function, the decoder turns the wire octets into a text whose presentation-side key is the wire-side
+   key of those octets, and the wire path's collision verifier accepts that text *)
+Theorem wire_and_decoded_text_keyed_identically :
+  forall (K : Type) (H : bytes -> K) ls qtype qclass cd p,
+    name_wf ls = true ->
+    exists text,
+      unpack_name (encode ls) 0 = Some (text, len (encode ls)) /\
+      pre_keywirewithprefix (encode ls) qtype qclass cd p = Some (pre_keywithprefix text qtype qclass cd p) /\
+      option_map H (pre_keywirewithprefix (encode ls) qtype qclass cd p) = Some (H (pre_keywithprefix text qtype qclass cd p)) /\
+      wire_equals_pres (encode ls) text = true.
+Proof. exact wire_and_decoded_text_keyed_identically_lemma. Qed.
+Print Assumptions wire_and_decoded_text_keyed_identically.
+
+(* ---- the decoded-path alias chase: which question the next sub-query asks *)
+
+(* translator ties: the first loop of searchAdditionalAnswer (dns.RR as a sum type: a *dns.CNAME, any other
+   record with its header, nil) ends normally having appended the response's answer records to the reply and
+   computed the model's answer_alias_scan; respCnameHasType on a non-nil response is answer_has_type *)
+Theorem gen_searchAdditionalAnswer_scan :
+  forall msg res target child,
+    go_searchAdditionalAnswer_loop1_run msg res target child =
+    (GoNext, (msg_add_answers msg (T_Msg_Answer res), res,
+              fst (answer_alias_scan (T_Msg_Answer res) target child),
+              snd (answer_alias_scan (T_Msg_Answer res) target child))).
+Proof. exact gen_searchAdditionalAnswer_scan_lemma. Qed.
+Print Assumptions gen_searchAdditionalAnswer_scan.
+
+Theorem gen_respCnameHasType :
+  forall res qtype, go_respCnameHasType res qtype = answer_has_type (T_Msg_Answer res) qtype.
+Proof. exact gen_respCnameHasType_lemma. Qed.
+Print Assumptions gen_respCnameHasType.
+
+(* for EVERY reply under construction and EVERY hop response: the chase's next sub-question is named by an alias
+   record of that very response — the last record of type CNAME — or there is none (child = false, empty
+   target); the reply gains exactly the response's answer records *)
+Theorem chase_next_question_named_by_last_alias :
+  forall msg res,
+    exists msg' target child,
+      go_searchAdditionalAnswer_loop1_run msg res [] false = (GoNext, (msg', res, target, child)) /\
+      T_Msg_Answer msg' = T_Msg_Answer msg ++ T_Msg_Answer res /\
+      ((child = false /\ target = [] /\ forallb not_alias (T_Msg_Answer res) = true) \/
+       (child = true /\ exists pre r post, T_Msg_Answer res = pre ++ r :: post /\ rr_type r = dns_type_cname /\
+                                          forallb not_alias post = true /\ target = rr_cname_target r)).
+Proof. exact chase_next_question_lemma. Qed.
+Print Assumptions chase_next_question_named_by_last_alias.
